@@ -250,9 +250,12 @@ func CtxID(c context.Context) int {
 	return 0
 }
 
+// admitAll is the sampler of the "Sample" step. In spite of its name it rejects exactly the events at
+// WarnLevel, so that which sampler a derivation path carries is observable (an always-admitting sampler
+// cannot be told from none).
 type admitAll struct{}
 
-func (admitAll) Sample(zerolog.Level) bool { return true }
+func (admitAll) Sample(l zerolog.Level) bool { return l != zerolog.WarnLevel }
 
 // RefLogger is the abstract state of a logger (reflogger).
 type RefLogger struct {
@@ -382,6 +385,9 @@ func ApplyStep(w *World, lg zerolog.Logger, m RefLogger, s Step) (zerolog.Logger
 	case "Sample":
 		lg = lg.Sample(admitAll{})
 		m.Sampler = true
+	case "SampleNil":
+		lg = lg.Sample(nil)
+		m.Sampler = false
 	default:
 		panic("seqx: unknown step " + s.Op)
 	}
@@ -519,7 +525,7 @@ func ExpectEvent(m RefLogger, en Entry, fs []Field, fi Final) Expected {
 	lvl := en.EffLevel()
 	var ex Expected
 	ex.GoCtx = m.GoCtx
-	passes := lvl >= m.Level && lvl >= zerolog.GlobalLevel() && lvl != zerolog.Disabled
+	passes := lvl >= m.Level && lvl >= zerolog.GlobalLevel() && lvl != zerolog.Disabled && !(m.Sampler && lvl == zerolog.WarnLevel)
 	if !passes {
 		return ex
 	}
